@@ -159,36 +159,21 @@ thread_local! {
     pub static RESULT: RefCell<PipeResult> = RefCell::new(PipeResult::default());
 }
 
-type PipeRunner = Basic<
-    TW,
-    runner::basic::WhichScenarioFn,
-    runner::basic::BeforeHookFn<TW>,
-    runner::basic::AfterHookFn<TW>,
->;
-
-/// The pipeline runner always has both hooks (keeps the type single).
-fn pipe_runner(cfg: &Config) -> PipeRunner {
-    assert!(cfg.before && cfg.after && !cfg.custom_which, "pipeline configs use both hooks");
-    let mut base = Basic::<TW>::default();
-    if let Some(c) = cfg.conc_builder {
-        base = base.max_concurrent_scenarios(c);
-    }
-    if let Some(n) = cfg.retries_builder {
-        base = base.retries(n);
-    }
-    if let Some(d) = cfg.retry_after_builder {
-        base = base.retry_after(d);
-    }
-    if cfg.fail_fast_builder {
-        base = base.fail_fast();
-    }
-    base.steps(spec::collection())
-        .before(hs::before_hook as runner::basic::BeforeHookFn<TW>)
-        .after(hs::after_hook as runner::basic::AfterHookFn<TW>)
+/// Builds the runner exactly as Engine A does (hooks / classifier / builder order as the
+/// configuration says) and drives the pipeline with it.
+fn drive<Wr>(cfg: Config, writer: Wr, wcli: Wr::Cli, exit_path: bool) -> futures::future::LocalBoxFuture<'static, ()>
+where
+    Wr: writer::Stats<TW> + writer::Normalized + 'static,
+    Wr::Cli: Clone,
+{
+    use cucumber::runner::Basic;
+    spec::with_runner!(&cfg, |r| drive_with(cfg.clone(), r, writer, wcli, exit_path).boxed_local())
 }
 
-async fn drive<Wr>(cfg: Config, writer: Wr, wcli: Wr::Cli, exit_path: bool)
+async fn drive_with<R, Wr>(cfg: Config, runner: R, writer: Wr, wcli: Wr::Cli, exit_path: bool)
 where
+    R: Runner<TW, Cli = runner::basic::Cli> + 'static,
+    R::EventStream: 'static,
     Wr: writer::Stats<TW> + writer::Normalized + 'static,
     Wr::Cli: Clone,
 {
@@ -200,9 +185,9 @@ where
         writer: wcli,
         custom: cli::Empty,
     };
-    let c = Cucumber::<TW, HParser, (), SpyRunner<PipeRunner>, Wr, cli::Empty>::custom(
+    let c = Cucumber::<TW, HParser, (), SpyRunner<R>, Wr, cli::Empty>::custom(
         HParser(cfg.clone()),
-        SpyRunner(pipe_runner(&cfg)),
+        SpyRunner(runner),
         writer,
     )
     .with_cli(opts);
@@ -251,12 +236,12 @@ macro_rules! wrap_and_drive {
         let w = $w;
         let cli = $cli;
         match stack.wrap {
-            Wrap::None => drive(cfg, w, cli, stack.exit_path).boxed_local(),
-            Wrap::FailOnSkipped => drive(cfg, w.fail_on_skipped(), cli, stack.exit_path).boxed_local(),
-            Wrap::RepeatFailed => drive(cfg, w.repeat_failed(), cli, stack.exit_path).boxed_local(),
-            Wrap::RepeatSkipped => drive(cfg, w.repeat_skipped(), cli, stack.exit_path).boxed_local(),
+            Wrap::None => drive(cfg, w, cli, stack.exit_path),
+            Wrap::FailOnSkipped => drive(cfg, w.fail_on_skipped(), cli, stack.exit_path),
+            Wrap::RepeatFailed => drive(cfg, w.repeat_failed(), cli, stack.exit_path),
+            Wrap::RepeatSkipped => drive(cfg, w.repeat_skipped(), cli, stack.exit_path),
             Wrap::FosRepeatFailed => {
-                drive(cfg, w.repeat_failed().fail_on_skipped(), cli, stack.exit_path).boxed_local()
+                drive(cfg, w.repeat_failed().fail_on_skipped(), cli, stack.exit_path)
             }
         }
     }};
